@@ -701,3 +701,30 @@ func init() {
 		return nil
 	})
 }
+
+func init() {
+	// pubsub queries are parsed by a PEG parser with 32767-entry token arrays; the event-query
+	// package variables of `types` are built at package initialisation.  A query built from a
+	// concrete string is represented by an empty Query whose source string is kept in a side table;
+	// matching such a query is outside the engine's reach (C19 search half is not applicable).
+	mkQuery := func(m *Machine, fr *frame, a []Value) Value {
+		qp := m.prog.ImportedPackage("github.com/tendermint/tendermint/libs/pubsub/query")
+		cell := new(Value)
+		*cell = zero(qp.Type("Query").Type())
+		m.side[cell] = a[0]
+		return cell
+	}
+	reg("github.com/tendermint/tendermint/libs/pubsub/query.MustParse", mkQuery)
+	reg("github.com/tendermint/tendermint/libs/pubsub/query.New", func(m *Machine, fr *frame, a []Value) Value {
+		return Tuple{mkQuery(m, fr, a), Iface{}}
+	})
+	reg("(*github.com/tendermint/tendermint/libs/pubsub/query.Query).String", func(m *Machine, fr *frame, a []Value) Value {
+		if s, ok := m.side[a[0].(*Value)]; ok {
+			return s
+		}
+		return "<query>"
+	})
+	reg("(*github.com/tendermint/tendermint/libs/pubsub/query.Query).Matches", func(m *Machine, fr *frame, a []Value) Value {
+		panic(pathEnd{kind: "unsupported", msg: "pubsub query matching (reflect/regexp/float parsing over strings)"})
+	})
+}
